@@ -179,7 +179,7 @@ func stageDrift(c Node, out Outcome, unordered bool) string {
 		}
 		want := FromTagged(Node{"t": "arr", "e": hst["rows"]})
 		g := FromTagged(StripMarkers(got))
-		if unordered && (st == "order" || st == "window" || st == "from" || st == "where" || st == "select" || st == "distinct") {
+		if unordered && (st == "order" || st == "window" || st == "from" || st == "where" || st == "group" || st == "select" || st == "distinct") {
 			gs, _ := g.([]any)
 			if !BagEqual(gs, want.([]any)) && st != "window" {
 				return fmt.Sprintf("stage %q: want %s got %s", st, Canon(want), Canon(g))
